@@ -38,6 +38,7 @@ import (
 	"github.com/jdillenkofer/pithos/verifharness/pdrv"
 	"github.com/jdillenkofer/pithos/verifharness/stacks"
 	"github.com/jdillenkofer/pithos/verifharness/vtrace"
+	"github.com/oklog/ulid/v2"
 	"github.com/prometheus/client_golang/prometheus"
 )
 
@@ -83,6 +84,26 @@ func optOf(o string) optSet {
 	return optSet{}
 }
 
+// tagSym names a tag set after the option sets above (inverse of optOf's tags)
+func tagSym(t map[string]string) string {
+	for _, cand := range []struct {
+		sym string
+		m   map[string]string
+	}{{"none", nil}, {"g1", optOf("o1").tags}, {"g2", optOf("o2").tags}} {
+		if len(cand.m) == len(t) {
+			same := true
+			for k, v := range cand.m {
+				same = same && t[k] == v
+			}
+			if same {
+				return cand.sym
+			}
+		}
+	}
+	b, _ := json.Marshal(t)
+	return "other:" + string(b)
+}
+
 func must(err error) {
 	if err != nil {
 		fatal("%v", err)
@@ -96,6 +117,8 @@ type stack struct {
 	st     storage.Storage   // the outbox storage under test
 	g      *gate
 	worker *proc
+	w2     *proc // second claim owner: another outbox instance on the same database and outbox id
+	st2    storage.Storage
 	etags  map[string]string // blob symbol -> ETag the storage gives a single put of that blob
 	closer func()
 }
@@ -220,24 +243,34 @@ func openStack(dir string, w *vtrace.Writer) *stack {
 	repo, err := repositoryFactory.NewStorageOutboxEntryRepository(odb)
 	must(err)
 	// lease of one hour: the heartbeat (lease/3) never fires during a run
-	st, err := outbox.NewStorage(&gatedDB{odb, g}, outboxID, &gatedInner{inner.Storage, g}, &obsRepo{repo, g},
+	st, err := outbox.NewStorage(&gatedDB{odb, g}, outboxID, &gatedInner{Storage: inner.Storage, g: g}, &obsRepo{repo, g},
 		prometheus.NewRegistry(), time.Hour)
 	must(err)
 	worker := &proc{name: "w", worker: true, sig: make(chan signal, 1), rel: make(chan struct{}), wstate: "idle"}
-	s := &stack{inner: inner, rawDB: odb, st: st, g: g, worker: worker, etags: map[string]string{}}
-	// Start starts the inner storage and the worker; the worker parks at its first claim.
+	// the second instance models a second process / node: same database, same outbox id, own claim owner
+	st2, err := outbox.NewStorage(&gatedDB{odb, g}, outboxID, &gatedInner{Storage: inner.Storage, g: g, passive: true}, &obsRepo{repo, g},
+		prometheus.NewRegistry(), time.Hour)
+	must(err)
+	w2 := &proc{name: "w2", worker: true, sig: make(chan signal, 1), rel: make(chan struct{}), wstate: "idle"}
+	s := &stack{inner: inner, rawDB: odb, st: st, st2: st2, g: g, worker: worker, w2: w2, etags: map[string]string{}}
+	// Start starts the inner storage and the workers; each worker parks at its first claim.
 	must(st.Start(context.WithValue(context.Background(), procKey{}, worker)))
+	must(st2.Start(context.WithValue(context.Background(), procKey{}, w2)))
 	s.await(worker)
+	s.await(w2)
 	s.probeETags()
 	s.closer = func() {
 		g.mu.Lock()
 		g.free = true
 		g.mu.Unlock()
-		if worker.parked {
-			worker.parked = false
-			worker.rel <- struct{}{}
+		for _, wp := range []*proc{worker, w2} {
+			if wp.parked {
+				wp.parked = false
+				wp.rel <- struct{}{}
+			}
 		}
 		sctx, cancel := context.WithTimeout(context.Background(), 20*time.Second)
+		_ = st2.Stop(sctx)
 		_ = st.Stop(sctx)
 		cancel()
 		_ = odb.Close()
@@ -321,7 +354,8 @@ func (s *stack) runCall(p *proc, c pdrv.Call) {
 func (s *stack) doCall(ctx context.Context, c pdrv.Call) map[string]any {
 	st := s.st
 	ret := map[string]any{"op": str(c, "op"), "err": "", "vid": -1, "dm": false,
-		"content": []string{}, "objvid": -1, "keys": []string{}, "buckets": []string{}}
+		"content": []string{}, "objvid": -1, "keys": []string{}, "buckets": []string{},
+		"versions": []any{}, "etagblob": "", "tags": "", "ver": ""}
 	var err error
 	b := storage.BucketName{}
 	if str(c, "b") != "" {
@@ -408,6 +442,58 @@ func (s *stack) doCall(ctx context.Context, c pdrv.Call) map[string]any {
 			}
 			ret["dm"] = r.IsDeleteMarker
 		}
+	case "HeadObject":
+		var o *storage.Object
+		o, err = st.HeadObject(ctx, b, k, nil)
+		if err == nil {
+			ret["objvid"] = 0
+			if o.VersionID != nil {
+				ret["objvid"] = s.g.interp.ModelVid(*o.VersionID)
+			}
+			ret["etagblob"] = "other"
+			for sym, e := range s.etags {
+				if e == o.ETag {
+					ret["etagblob"] = sym
+				}
+			}
+		}
+	case "GetObjectTagging":
+		var t map[string]string
+		t, err = st.GetObjectTagging(ctx, b, k, nil)
+		if err == nil {
+			ret["tags"] = tagSym(t)
+		}
+	case "ListParts":
+		_, err = st.ListParts(ctx, b, k, storage.MustNewUploadId(ulid.Make().String()), storage.ListPartsOptions{MaxParts: 1000})
+	case "ListObjectVersions":
+		var lr *storage.ListObjectVersionsResult
+		lr, err = st.ListObjectVersions(ctx, b, storage.ListObjectVersionsOptions{MaxKeys: 1000})
+		if err == nil {
+			vs := []any{}
+			for _, v := range lr.Versions {
+				vs = append(vs, map[string]any{"k": symKey(v.Key.String()), "vid": s.g.interp.ModelVid(v.VersionID), "dm": v.IsDeleteMarker, "latest": v.IsLatest})
+			}
+			ret["versions"] = vs
+		}
+	case "GetVersioning":
+		var vc *storage.BucketVersioningConfiguration
+		vc, err = st.GetBucketVersioningConfiguration(ctx, b)
+		if err == nil {
+			ret["ver"] = "Unset"
+			if vc != nil && vc.Status != nil {
+				ret["ver"] = string(*vc.Status)
+			}
+		}
+	case "ListMultipartUploads":
+		_, err = st.ListMultipartUploads(ctx, b, storage.ListMultipartUploadsOptions{MaxUploads: 1000})
+	case "GetWebsite":
+		_, err = st.GetBucketWebsiteConfiguration(ctx, b)
+	case "GetCORS":
+		_, err = st.GetBucketCORSConfiguration(ctx, b)
+	case "GetLifecycle":
+		_, err = st.GetBucketLifecycleConfiguration(ctx, b)
+	case "GetNotification":
+		_, err = st.GetBucketNotificationConfiguration(ctx, b)
 	case "GetObject":
 		var o *storage.Object
 		var rs []io.ReadCloser
@@ -485,8 +571,13 @@ func (d *driver) doStep(st step) bool {
 		d.steps++
 		return true
 	}
-	p := s.worker
-	if st.P != "w" {
+	var p *proc
+	switch st.P {
+	case "w":
+		p = s.worker
+	case "w2":
+		p = s.w2
+	default:
 		p = d.client(st.P)
 	}
 	if !p.parked {
@@ -514,11 +605,15 @@ func (d *driver) complete() bool {
 			}
 		}
 		q, _ := s.snapshot()
-		if len(q) > 0 || s.worker.wstate != "idle" {
-			d.advance(s.worker)
-			if s.worker.wstate == "failed" {
-				failed[s.worker.curSeq]++
-				if failed[s.worker.curSeq] >= 2 {
+		wp := s.worker
+		if s.w2.wstate != "idle" {
+			wp = s.w2
+		}
+		if len(q) > 0 || wp.wstate != "idle" {
+			d.advance(wp)
+			if wp.wstate == "failed" {
+				failed[wp.curSeq]++
+				if failed[wp.curSeq] >= 2 {
 					return false // an entry that cannot be replayed blocks the queue for good
 				}
 			}
